@@ -1079,7 +1079,10 @@ mod n {
                 m.cons.frames.push(frame(0xF3));
                 let g1 = c.of(&[0xF0u128, 0xF2]);
                 m.cons.wincons.push(wincons(0xD0, uid(0xF0), uid(0xF1)));
-                m.cons.wincons.push(wincons(0xD1, uid(g1), uid(0xF3)));
+                // (a construction without frame fraction still names its frame: the reference keeps the frame)
+                let mut frameless = wincons(0xD1, uid(g1), uid(0xF3));
+                frameless.f_f = 0.0;
+                m.cons.wincons.push(frameless);
                 // walls
                 let w0s = c.of(&[0xA0u128, 0xA1]);
                 let w0n = c.of(&[None, Some(0xA1u128), Some(0xA2)]);
